@@ -7,8 +7,9 @@ import subprocess
 import sys
 import time
 
-VERIF = '/verif'
-REPO = '/repo'
+# relocatable: a snapshot of /verif (vp run) works on its own files; VERIF_REPO selects another copy of the repository
+VERIF = os.environ.get('VERIF_ROOT') or os.path.dirname(os.path.dirname(os.path.abspath(__file__)))
+REPO = os.environ.get('VERIF_REPO') or os.environ.get('VP_RUN_REPO') or '/repo'
 LEAN = f'{VERIF}/lean'
 HARNESS = f'{VERIF}/harness'
 WORK = f'{VERIF}/work'
@@ -16,7 +17,7 @@ DRV = f'{LEAN}/.lake/build/bin/drv'
 XCHECK = f'{WORK}/target/debug/xcheck'
 NPROC = min(16, os.cpu_count() or 4)
 ALLOWED_AXIOMS = {'propext', 'Classical.choice', 'Quot.sound'}
-ENV = dict(os.environ, CARGO_NET_OFFLINE='true')
+ENV = dict(os.environ, CARGO_NET_OFFLINE='true', CARGO_TARGET_DIR=f'{WORK}/target')
 
 
 def sh(cmd, cwd=None, timeout=None, check=False, env=None):
@@ -44,7 +45,14 @@ class Build:
         return self.lean_ok
 
     def harness(self):
-        r = sh(['cargo', 'build', '--offline', '-q'], cwd=HARNESS, timeout=1800)
+        hdir = HARNESS
+        if REPO != '/repo':
+            # the harness names the repository by path: build a copy that names this one
+            hdir = f'{WORK}/harness-reloc'
+            sh(f'rm -rf {hdir} && mkdir -p {WORK} && cp -r {HARNESS} {hdir}', check=True)
+            ct = f'{hdir}/dexlib/Cargo.toml'
+            open(ct, 'w').write(open(ct).read().replace('/repo/derive-ex/src/lib.rs', f'{REPO}/derive-ex/src/lib.rs'))
+        r = sh(['cargo', 'build', '--offline', '-q'], cwd=hdir, timeout=1800)
         self.harness_ok = r.returncode == 0
         self.harness_log = (r.stdout + r.stderr)[-6000:]
         return self.harness_ok
